@@ -143,7 +143,7 @@ def elem_v2(name, signed_by, rng, typ=None):
                   "key": rng.choice(["04" + "11" * 64, "aabbccdd",
                                      "046b17d1f2e12c4247f8bce6e563a440f277037d812deb33a0f4a13945d898c2964fe342e2fe1a7f9b8ee7eb4a7c0f9e162bce33576b315ececbb6406837bf51f5",
                                      "036b17d1f2e12c4247f8bce6e563a440f277037d812deb33a0f4a13945d898c296"]),
-                  "auth_data": "cc" * 32, "signature": "3006020101020101"})
+                  "auth_data": rng.choice(["cc" * 32, "cc" * 32, "", "zz"]), "signature": "3006020101020101"})
     else:
         e["message"] = base64.b64encode(bytes(rng.getrandbits(8) for _ in range(60))).decode()
     return e
